@@ -43,7 +43,9 @@ func c02(c *Ctx) (*report.Result, error) {
 func checkRoutingCountFlow(c *Ctx, res *report.Result) {
 	rule := "O2.1"
 	if f := resolve(c, res, rule, anchor{"proxy", "*proxyStreamReceiver", "recvReplicationMessages"}); f != nil {
-		calls := flow.FindCalls(f, func(cc *ssa.CallCommon) bool { return flow.IsCallTo(cc, srvPath+"/common", "", "WorkflowIDToHistoryShard") })
+		calls := flow.FindCalls(f, func(cc *ssa.CallCommon) bool {
+			return flow.IsCallTo(cc, srvPath+"/common", "", "WorkflowIDToHistoryShard")
+		})
 		if len(calls) != 1 {
 			res.Undec(rule, "recvReplicationMessages: WorkflowIDToHistoryShard call", fnPos(c.Prog, f), fmt.Sprintf("%d calls", len(calls)))
 		} else {
@@ -484,7 +486,9 @@ func c04(c *Ctx) (*report.Result, error) {
 	res.RuleDoc["O4.4"] = "the previous receiver incarnation is cancelled before the new one registers (see O8.3)"
 
 	if f := resolve(c, res, "O4.1", anchor{"proxy", "", "streamRouting"}); f != nil {
-		mk := flow.FindCalls(f, func(cc *ssa.CallCommon) bool { return flow.IsCallTo(cc, srvPath+"/common/channel", "", "NewShutdownOnce") })
+		mk := flow.FindCalls(f, func(cc *ssa.CallCommon) bool {
+			return flow.IsCallTo(cc, srvPath+"/common/channel", "", "NewShutdownOnce")
+		})
 		if len(mk) != 1 {
 			res.Viol("O4.1", "streamRouting: one shutdown latch", fnPos(c.Prog, f), fmt.Sprintf("%d latches are created: sender and receiver would not end together", len(mk)))
 		} else {
